@@ -24,6 +24,33 @@ pub struct PNode<B: NetworkBehaviour> {
     pub listen_port: u16,
 }
 
+/// Which connection stack the nodes of a run use.
+#[derive(Clone, Copy, Debug, PartialEq)]
+pub enum Stack {
+    /// SimTransport + SimMuxer (security and muxing stubbed)
+    Stub,
+    /// simulated byte pipes under the real multistream-select + noise + yamux/mplex
+    Full(crate::full::Mux, bool),
+}
+
+impl Stack {
+    pub fn draw_full() -> Self {
+        Stack::Full(if choose(2) == 0 { crate::full::Mux::Yamux } else { crate::full::Mux::Mplex }, choose(3) == 0)
+    }
+    pub fn conn_count(&self) -> usize {
+        match self {
+            Stack::Stub => net::conn_count(),
+            Stack::Full(..) => crate::full::pipe_count(),
+        }
+    }
+    pub fn reset_conn(&self, k: usize) {
+        match self {
+            Stack::Stub => net::reset_conn(k),
+            Stack::Full(..) => crate::full::reset_pipe(k),
+        }
+    }
+}
+
 pub fn steady_knobs() -> Knobs {
     Knobs { notify_buffer: 1 + choose(8), event_buffer: choose(8), dial_concurrency: 1 + choose(4) as u8, idle_timeout: Duration::from_secs(3600), max_negotiating_inbound: 128, smart_dial: false }
 }
@@ -35,6 +62,14 @@ where
     pub fn new(behaviour: impl FnOnce(&Keypair) -> B, knobs: &Knobs) -> Self {
         let key = Keypair::generate_ed25519();
         Self::with_key(key, behaviour, knobs)
+    }
+
+    /// A node on the given stack.
+    pub fn make(stack: Stack, key: Keypair, behaviour: impl FnOnce(&Keypair) -> B, knobs: &Knobs) -> Self {
+        match stack {
+            Stack::Stub => Self::with_key(key, behaviour, knobs),
+            Stack::Full(mux, lazy) => Self::on(|idx, k| crate::full::full_transport(idx, k, mux, lazy), key, behaviour, knobs),
+        }
     }
 
     pub fn with_key(key: Keypair, behaviour: impl FnOnce(&Keypair) -> B, knobs: &Knobs) -> Self {
